@@ -452,6 +452,14 @@ pub fn run(ctx: &Ctx) -> i32 {
     let mut acc = Acc::new(ctx);
     let wl = Loads::new(ctx.quick());
     acc.pool(&wl, "c10", true);
+    // language-server sessions (edit histories of C15's workload): every error the library locates must be
+    // published for the document of its module with exactly the range of its span in the client's text
+    let hs = super::c15::Histories {
+        n: if ctx.quick() { 400 } else { 8000 },
+        max_steps: if ctx.quick() { 25 } else { 60 },
+        located_only: Some("C10"),
+    };
+    acc.pool(&hs, "c15loc-c10", true);
     // Canary: the offline checker must flag a log with a double load and a reversed compile order.
     let g = Graph {
         n: 2,
